@@ -29,6 +29,12 @@ func runC10(c *Ctx) {
 	c.ruleClosedQueueRejects("R10.3")
 	c.rulePurge("R10.4")
 	c.ruleQueuedBeforePublication("R10.5")
+	// a job accepted while Purge runs stays pending and visible: Purge resets the queue under one write lock
+	c.rulePurgeResetsBoth("R10.7")
+	// no interleaving crashes the process: the batch stream is closed by exactly one finisher
+	c.ruleLastFinisher("R10.8")
+	// a submission to a closed queue is rejected with no side effect other than closing the refused job
+	c.ruleSubmitPaths("R10.9", submitChecks{reject: true})
 }
 
 // statusStoreSites: every plain store of the job status (direct Store or via
